@@ -2,22 +2,32 @@ package main
 
 import (
 	"encoding/json"
+	"sort"
+	"strings"
 	"unicode/utf8"
 
 	"verif/mc/ev"
 )
 
 func allGroups(r *ev.Run) []group {
-	maxRows := 5
+	// every QueryRange/QueryInstant call parses the query with a freshly built participle parser (~1.3 ms), so
+	// the row bound is what the budget allows: quick = all structures up to 4 rows on every endpoint and up to
+	// 5 rows on the streams encoder; thorough = up to 5 rows everywhere and 6 on the streams encoder.
+	maxRows, maxRowsStreams := 4, 5
 	if r.Thorough() {
-		maxRows = 6
+		maxRows, maxRowsStreams = 5, 6
 	}
+	r.Extra["max_rows"] = map[string]int{"range_streams": maxRowsStreams, "other_endpoints": maxRows}
 	var gs []group
 	for _, ep := range []string{"range_streams", "range_matrix", "instant_streams", "instant_vector"} {
 		ep := ep
 		gs = append(gs, group{"qr_struct_" + ep, func(r *ev.Run, g *gstat) {
 			var cases []*QRCase
-			structCases(ep, maxRows, func(c *QRCase) { cases = append(cases, c) })
+			n := maxRows
+			if ep == "range_streams" {
+				n = maxRowsStreams
+			}
+			structCases(ep, n, func(c *QRCase) { cases = append(cases, c) })
 			runQRCases(r, g, cases)
 		}})
 		gs = append(gs, group{"qr_content_" + ep, func(r *ev.Run, g *gstat) {
@@ -36,7 +46,25 @@ func allGroups(r *ev.Run) []group {
 		contentCases("tail", func(c *QRCase) { cases = append(cases, c) })
 		runTailCases(r, g, cases)
 	}})
+	gs = append(gs,
+		group{"db_pipeline", func(r *ev.Run, g *gstat) { runDBCases(r, g, dbCases(r.Thorough())) }},
+		group{"labels_values_series", func(r *ev.Run, g *gstat) { runLabelCases(r, g, labelCases(r.Thorough())) }},
+		group{"tempo", func(r *ev.Run, g *gstat) { runTempoCases(r, g, tempoCases(r.Thorough())) }},
+		group{"prom_write_response", func(r *ev.Run, g *gstat) { runPromCases(r, g, promCases()) }},
+	)
+	// cheap groups first: a deadline then cuts the big structure enumerations, not whole endpoints
+	sort.SliceStable(gs, func(i, j int) bool { return rank(gs[i].name) < rank(gs[j].name) })
 	return gs
+}
+
+func rank(name string) int {
+	switch {
+	case strings.HasPrefix(name, "qr_struct"):
+		return 2
+	case strings.HasPrefix(name, "qr_content"):
+		return 1
+	}
+	return 0
 }
 
 func qrKey(c *QRCase) string {
@@ -111,6 +139,34 @@ func replayCase(r *ev.Run, rp Replay) bool {
 		} else {
 			runQRCases(r, g, []*QRCase{&c})
 		}
+		return true
+	case "db":
+		var c DBCase
+		if err := json.Unmarshal(rp.Case, &c); err != nil {
+			ev.Fatal("replay: %v", err)
+		}
+		runDBCases(r, &gstat{}, []*DBCase{&c})
+		return true
+	case "labels":
+		var c LabelCase
+		if err := json.Unmarshal(rp.Case, &c); err != nil {
+			ev.Fatal("replay: %v", err)
+		}
+		runLabelCases(r, &gstat{}, []*LabelCase{&c})
+		return true
+	case "tempo":
+		var c TempoCase
+		if err := json.Unmarshal(rp.Case, &c); err != nil {
+			ev.Fatal("replay: %v", err)
+		}
+		runTempoCases(r, &gstat{}, []*TempoCase{&c})
+		return true
+	case "prom":
+		var c PromCase
+		if err := json.Unmarshal(rp.Case, &c); err != nil {
+			ev.Fatal("replay: %v", err)
+		}
+		runPromCases(r, &gstat{}, []*PromCase{&c})
 		return true
 	}
 	return false
